@@ -2081,7 +2081,12 @@ class unyt_array(np.ndarray):
                 out_arr = ret_class(out_arr, unit, bypass_validation=True)
         if out is not None:
             if mul != 1:
-                multiply(out, mul, out=out)
+                if isinstance(out, tuple):
+                    multiply(out, mul, out=out)
+                else:
+                    # scale the raw buffer: out still carries the units it
+                    # had before the call, which may not allow multiplication
+                    np.multiply(out_func, mul, out=out_func)
                 if np.shares_memory(out_arr, out):
                     mul = 1
             if isinstance(out, unyt_array):
